@@ -29,6 +29,13 @@ meta = {"properties": props, "patch_from": patch, "ran": []}
 assert sh(["git", "-C", "/repo", "worktree", "add", "-q", "--detach", wt, "HEAD"]).returncode == 0
 try:
     def demo_run(tag):
+        if not demo.endswith(".sh") and re.search(r"/tmp/seed\d*-C\d+/wt", open(demo, errors="replace").read()):
+            # the demonstration carries the agent's worktree path in its source (it compiles the core itself): point it at the tree under examination
+            local = os.path.join(wt, "demo_local.c")
+            open(local, "w").write(re.sub(r"/tmp/seed\d*-C\d+/wt", wt, open(demo, errors="replace").read()))
+            demo_src = local
+        else:
+            demo_src = demo
         if demo.endswith(".sh"):
             r = sh(["sh", demo, wt], cwd=wt, timeout=900)
             meta.setdefault("demo_build", "sh demo.sh $WT")
@@ -64,6 +71,8 @@ try:
             if "-o " not in cmd:
                 cmd += " -o " + exe
             tries.insert(0, cmd)
+        if demo_src != demo:
+            tries = [t.replace(demo, demo_src) for t in tries]
         r = None
         for t in tries:
             r = sh(t, cwd=wt)
